@@ -7,7 +7,8 @@ CONSTANTS Keys,        \* existing accounts
           UnknownKeys, \* keys with no document
           Balances,    \* initial balances (Big magnitudes)
           Amounts,     \* request amounts (Big magnitudes)
-          MaxSteps, EmitOneIn, ActionSet, TypeSet
+          MaxSteps, EmitOneIn, ActionSet, TypeSet,
+          Forms        \* subset of {"plain", "e164", "both"}
 
 VARIABLES db, hist, flags
 vars == <<db, hist, flags>>
@@ -20,19 +21,19 @@ Init == /\ \E f \in [Keys -> Balances] :
 \* structural signature of a step (for the runner's path selection): which branch served the request and how
 \* the balance related to the amount
 StepSig(d, c, r) ==
-  ToString(<<c.action, c.type,
+  ToString(<<c.action, c.type, c.form,
              IF c.key \in DOMAIN d
                THEN <<"known", MCmp(c.amt, d[c.key].mag), d[c.key].mag = <<>>, SIsNeg(d[c.key]), d[c.key] # r.db[c.key]>>
                ELSE <<"unknown", c.key>> >>)
 
 Step ==
-  \E k \in Keys \cup UnknownKeys, act \in ActionSet, ty \in TypeSet, amt \in Amounts :
+  \E k \in Keys \cup UnknownKeys, act \in ActionSet, ty \in TypeSet, amt \in Amounts, fm \in Forms :
      LET n == Len(hist) - 1
-         c == [key |-> k, action |-> act, type |-> ty, num |-> n, sid |-> "s" \o ToString(n), amt |-> amt]
+         c == [key |-> k, action |-> act, type |-> ty, num |-> n, sid |-> "s" \o ToString(n), amt |-> amt, form |-> fm]
          r == HandleCCR(db, c)
      IN /\ db' = r.db
         /\ flags' = Failing(db, c, r.db, r.ans)
-        /\ hist' = Append(hist, [a |-> "ccr", key |-> k, action |-> act, type |-> ty, num |-> n, sid |-> c.sid, amt |-> amt,
+        /\ hist' = Append(hist, [a |-> "ccr", key |-> k, action |-> act, type |-> ty, num |-> n, sid |-> c.sid, amt |-> amt, form |-> fm,
                                  sig |-> StepSig(db, c, r)])
 
 Next == Len(hist) - 1 < MaxSteps /\ Step
